@@ -68,14 +68,51 @@ def trace_sig(t, bad, l):
 
 def run_family_replay(ctx, names, grow, slen=0, label="s2c"):
     return D.gen_and_replay(ctx, "Gen_TemplateLang", "Gen_TemplateLang.cfg",
-                            {"Fams": fams(names), "Grow": grow, "SLen": slen}, timeout=ctx.pick(400, 1500), label=label)
+                            {"Fams": fams(names), "Grow": grow, "SLen": slen}, timeout=ctx.pick(400, 3000), label=label)
 
 
-def run_traces(ctx, n, err_rate, salt=0):
-    jobs = [(i + 1, (ctx.seed + salt) * 1000003 + i, err_rate) for i in range(n)]
+def binding_demo(ctx, traces):
+    """thorough tier: a recorded observation corrupted in one byte / one line number must be rejected by TLC"""
+    import copy
+    import os
+    from harness import VERIF
+    bad, kind_of = [], {}
+    for t in traces:
+        o = t["ev"][0]["obs"]
+        n_ok = sum(1 for k in kind_of.values() if k == "ok")
+        n_pe = sum(1 for k in kind_of.values() if k == "parse")
+        if o["kind"] == "ok" and len(o["out"]) > 3 and n_ok < 3:
+            c = copy.deepcopy(t)
+            c["id"] = len(bad) + 1
+            c["ev"][0]["obs"]["out"][1] ^= 1
+        elif o["kind"] == "parse" and o["file"] == "main" and n_pe < 3:
+            c = copy.deepcopy(t)
+            c["id"] = len(bad) + 1
+            c["ev"][0]["obs"]["line"] += 1000
+        else:
+            continue
+        kind_of[c["id"]] = o["kind"]
+        bad.append(c)
+    sd = os.path.join(VERIF, "specs", "tmpl")
+    accepted, _ = D.validate_shards_threads(sd, "Trace_TemplateLang", os.path.join(sd, "Trace_TemplateLang.cfg"), bad, 1,
+                                            ctx.scratch, 600, False)
+    # a corrupted observation is accepted only where the specification leaves the template open ("unspec")
+    rejected = [kind_of[i] for i in kind_of if i not in accepted]
+    if "ok" not in rejected or "parse" not in rejected:
+        raise framework.Machinery("binding demonstration failed: corrupted observations accepted (%s rejected of %s)"
+                                  % (rejected, list(kind_of.values())))
+    ctx.cov["binding_demo"] = ("%d of %d corrupted observations (one output byte flipped / ParseError line shifted) rejected by TLC"
+                               % (len(rejected), len(bad)))
+
+
+def run_traces(ctx, n, err_rate, salt=0, esc_bias=False):
+    jobs = [(i + 1, (ctx.seed + salt) * 1000003 + i, err_rate, esc_bias) for i in range(n)]
     traces = framework.pool_map(D.random_case, jobs)
+    framework._validate_shards = D.validate_shards_threads      # same sharding, threads instead of Pool.map (see there)
     ctx.validate("tmpl", "Trace_TemplateLang", "Trace_TemplateLang.cfg", traces, sig_fn=trace_sig,
-                 timeout=ctx.pick(400, 1500))
+                 timeout=ctx.pick(400, 3000))
+    if not ctx.quick:
+        binding_demo(ctx, traces)
     kinds = {}
     for t in traces:
         k = t["ev"][0]["obs"]["kind"]
@@ -96,7 +133,7 @@ def run(ctx):
         n += run_family_replay(ctx, ["errors", "errors2", "try", "while"], 2)
     ctx.cov["exhaustive"] = True
     # 3. code -> spec: larger random templates, TLC lexes / parses / evaluates the recorded text
-    run_traces(ctx, ctx.pick(600, 10000), 0.3)
+    run_traces(ctx, ctx.pick(400, 10000), 0.3)
     ctx.cov["rule"] = ("templates: every token sequence of each family (alphabets and bounds in TemplateLang!Family, bound = max + %d) "
                        "x loader settings, %d in total, plus seeded random three-file template sets from the python-side grammar; "
                        "distinct = distinct (settings, file texts); non-trivial = main text of >= 2 characters with a specified result"
